@@ -1565,8 +1565,8 @@ func body(r *vlib.Run) {
 func main() {
 	vlib.Main(&vlib.Spec{
 		ID: "C17",
-		Rule: "exhaustive: every sequence of <= 3 (thorough 4) loads over a pool of 55 configurations (18 bodies x revisions {-1,1,2} + nil: empty, one/two targets, request content changed under the same name, request renamed with equal content and target re-pointed, pointers swapped, contents swapped, both swapped, address edited, request added only, instance id only, and the five kinds of invalid configuration), each sequence run on NewConfig and with its first element as the base of NewConfigWithBase; " +
-			"random: seeded sequences of 2-12 loads, each produced from the last accepted / the previous / a fresh configuration by 0-4 edits (add/remove/edit target, re-point, edit/rename/copy/add/remove request, swap request contents with or without the pointers, request edited while a target follows the old content to a new name, config meta only, six ways of invalidating) with revisions greater/equal/lower/negative/zero/min/max relative to the model's current revision, 1 in 4 with a base configuration (valid, invalid or nil), 1 in 25 with no handlers installed. " +
+		Rule: "exhaustive: quick = every sequence of <= 3 loads over a pool of 55 configurations (18 bodies x revisions {-1,1,2} + the nil configuration); thorough = every sequence of <= 3 loads over 73 configurations (revisions {-1,0,1,2}) plus every sequence of exactly 4 loads over a core pool of 31 (10 bodies x {1,2,3} + nil). Bodies: empty, one/two targets, request content changed under the same name, request renamed with equal content and target re-pointed, pointers swapped, contents swapped, both swapped, address edited, request added only, instance id only, and the five kinds of invalid configuration (missing request, no address, empty request name although a request is stored under the empty name, nil target, empty target name). Each sequence is run on NewConfig and again with its first element as the base of NewConfigWithBase; " +
+			"random: seeded sequences of 2-12 loads, each produced from the last accepted / the previous / a fresh configuration by 0-4 edits (add/remove/edit target, re-point, edit/rename/copy/add/remove request, swap request contents with or without the pointers, request edited while a target follows the old content to a new name, config meta only, seven ways of invalidating) with revisions greater/equal/lower/negative/zero/min/max/+2^40 relative to the model's current revision, 1 in 4 with a base configuration (valid, invalid or nil), 1 in 25 with no handlers installed. " +
 			"A sequence is counted as distinct non-trivial when at least one accepted load produced handler calls and there was also a rejected load or a second accepted load (i.e. the oracle judged an announcement and a gate decision or a real diff), hashed by its configurations.",
 		Assumptions: []string{
 			"acceptability is recomputed from the documented conditions: every target has a non-empty name, a non-nil configuration, >= 1 address, a non-empty request name that exists in the request map; revision strictly greater than the current configuration's (any revision when there is none; with NewConfigWithBase the base is the current configuration and its targets are the initial set)",
